@@ -148,14 +148,14 @@ def gen_tree(rng, override=False):
             r = rng.random()
             if r < 0.2:
                 own.append(ref_f(('ref', rng.choice(hier_roots))))               # recursive / cross-hierarchy member
-            elif r < 0.3:
+            elif r < 0.4:
                 own.append(ref_f(('arr', ('ref', rng.choice(hier_roots)))))
             anc = U.flat_fields({'classes': classes}, p)
             if override and own and anc and rng.random() < 0.6:
                 # redeclare a member of an ancestor (the odict override rule)
                 g = rng.choice(anc)
                 own[rng.randrange(len(own))] = dict(prim_f(g['name']))
-            far = len(nss) > 1 and rng.random() < 0.15
+            far = len(nss) > 1 and rng.random() < 0.25    # a subclass placed in another namespace; its own subclasses come back
             sns = rng.choice([n for n in nss if n != ns]) if far else ns
             cid = add('S%d_%d' % (h, s), sns, p, own, far=far)
             members.append(cid)
@@ -200,6 +200,8 @@ def gen_tree(rng, override=False):
         cout = add('m%dResponse' % i, tns, None, [res], msg=True)
         methods.append({'name': 'm%d' % i, 'ty': ty, 'min': mn, 'nillable': nil, 'in': cin, 'out': cout,
                         'plain': mn == 0 and nil and rng.random() < 0.5})
+    if any(c.get('far') for c in classes):
+        ORACLE['programs_with_cross_namespace_inheritance'] = ORACLE.get('programs_with_cross_namespace_inheritance', 0) + 1
     return {'tns': tns, 'classes': classes, 'n_user': n_user, 'methods': methods}
 
 
@@ -403,7 +405,7 @@ def g_py(desc):
     return glist(rows)
 
 
-def g_prelude(desc, prefmap, extra=''):
+def g_prelude(desc, prefmap, extra='', unres=()):
     """definitions shared by the case files of one program: the universe, the roots of
     populate_interface, the prefix table the interface ended up with, the model's registry"""
     roots = []
@@ -420,7 +422,8 @@ def g_prelude(desc, prefmap, extra=''):
           '| (k, v) :: r => if text_eqb k ns then v else go r end) PMAP.\n')
     s += ('Definition REG : registry := Eval vm_compute in (match populate shape_src UU TNS %d ROOTS with '
           'Some r => r | None => [] end).\n' % (6 * len(desc['classes']) + 30))
-    s += 'Definition CF (soft poly : bool) : pcfg := mkpcfg soft TNS poly true PM REG.\n'
+    s += 'Definition UNRES : list (text * text) := %s.\n' % glist(['(%s, %s)' % (gtext(a), gtext(n)) for a, n in sorted(unres)])
+    s += 'Definition CF (soft poly : bool) : pcfg := mkpcfg soft TNS poly true PM REG UNRES.\n'
     return s + extra
 
 
@@ -693,7 +696,7 @@ def mutate_xml(rng, desc, root, msg):
 
 
 # ------------------------------------------------------------------ correspondence: XML
-def corr_xml(check, desc, b, prelude_for, tag, tier):
+def corr_xml(check, desc, b, prelude_for, tag, tier, forced=()):
     from lxml import etree
     rng = check.rng
     n_vals = 3 if tier == 'quick' else 8
@@ -705,9 +708,13 @@ def corr_xml(check, desc, b, prelude_for, tag, tier):
         app_for = {poly: get_app(desc, b, proto, poly) for poly in (True, False)}
         soft_app = get_app(desc, b, proto, True, soft=True)
         for mi, m in enumerate(desc['methods']):
-            for _ in range(n_vals):
-                v = gen_value(rng, desc, m['ty'], depth=rng.randint(1, 3))
-                if rng.random() < 0.1:
+            todo = [fv for fmi, fv in forced if fmi == mi] + [None] * n_vals
+            for v in todo:
+                if v is None:
+                    v = gen_value(rng, desc, m['ty'], depth=rng.randint(1, 3))
+                    if rng.random() < 0.1:
+                        v = ('none',)
+                if False:
                     v = ('none',)
                 for poly in (True, False):
                     app = app_for[poly]
@@ -868,7 +875,7 @@ def mutate_doc(rng, desc, doc):
     return None
 
 
-def corr_hier(check, desc, b, prelude_for, tag, tier):
+def corr_hier(check, desc, b, prelude_for, tag, tier, forced=()):
     rng = check.rng
     n_vals = 3 if tier == 'quick' else 8
     protos = [rng.choice(DICT_PROTOS)] if tier == 'quick' else list(DICT_PROTOS)
@@ -876,8 +883,10 @@ def corr_hier(check, desc, b, prelude_for, tag, tier):
         enc_cases, dec_cases = [], []
         app_for = {poly: get_app(desc, b, proto, poly) for poly in (True, False)}
         for mi, m in enumerate(desc['methods']):
-            for _ in range(n_vals):
-                v = gen_value(rng, desc, m['ty'], depth=rng.randint(1, 3))
+            todo = [fv for fmi, fv in forced if fmi == mi] + [None] * n_vals
+            for v in todo:
+                if v is None:
+                    v = gen_value(rng, desc, m['ty'], depth=rng.randint(1, 3))
                 for poly in (True, False):
                     app = app_for[poly]
                     full = app._c16_classes
@@ -1394,6 +1403,25 @@ def corpus():
     return out
 
 
+def cross_namespace_program():
+    """B(a) in urn:a <- F(f) in urn:c <- G(xs: Array(B), k: B) back in urn:a, echo(B) and echo(Array(B)).  The interface
+    registers B only (F is placed elsewhere, G hangs below F), resolve_namespace reaches F (a direct subclass) but
+    never G: G's Array class keeps no namespace.  Instances of F and G are outside the property's quantifier (their
+    markers cannot be looked up); the correspondences run them all the same (forced values), the oracle runs B."""
+    P = lambda p: ('prim', p)
+    desc = _prog('urn:a', [{'ns': 'urn:a', 'name': 'B', 'parent': None, 'fields': [_f('a', P('int'))]},
+                           {'ns': 'urn:c', 'name': 'F', 'parent': 0, 'fields': [_f('f', P('int'))], 'far': True},
+                           {'ns': 'urn:a', 'name': 'G', 'parent': 1,
+                            'fields': [_f('xs', ('arr', ('ref', 0))), _f('k', ('ref', 0)), _f('ps', ('arr', P('text')))]}],
+                 [(('ref', 0), 0, True, True), (('arr', ('ref', 0)), 0, True, False)])
+    bv = ('obj', 0, [('int', 1)])
+    fv = ('obj', 1, [('int', 2), ('int', 3)])
+    gv = ('obj', 2, [('int', 4), ('int', 5), ('list', [bv, fv, ('obj', 2, [('none',), ('none',), ('list', []), ('none',), ('none',)])]),
+                     fv, ('list', [('text', 'p'), ('text', '')])])
+    vals = [(0, bv), (1, ('list', [bv, bv]))]
+    forced = [(0, gv), (0, fv), (1, ('list', [gv, bv, fv]))]
+    return desc, vals, forced
+
 # ------------------------------------------------------------------ growing hierarchies (oracle only)
 def extend_program(desc, b, new):
     """define further subclasses AFTER the program has been used; plain primitive members, so that no
@@ -1555,22 +1583,40 @@ def probe_empty_root(check):
 
 
 # ------------------------------------------------------------------ run
+def unresolved_arrays(app):
+    """(namespace, member name) of the Array-typed members whose Array class was never given a namespace
+    (no resolve_namespace call reached the declaring class): an input of the model, see p_unres"""
+    from spyne.model.complex import Array
+    out = set()
+    for cls in app._c16_classes:
+        for k, v in cls._type_info.items():
+            if isinstance(v, type) and issubclass(v, Array) and v.get_namespace() is None:
+                out.add((cls.get_namespace(), k))
+    return out
+
+
 def prelude_factory(desc):
     def f(*apps):
         # prefixes are allocated lazily by the application that writes a marker; the applications
         # of one program that allocate at all must agree
         pm = {}
+        unres = set()
         for a in apps:
             if a is None:
                 continue
             for k, v in a.interface.prefmap.items():
                 if pm.setdefault(k, v) != v:
                     raise RuntimeError('applications of one program disagree on the prefix of %r' % k)
-        return g_prelude(desc, pm)
+            unres |= unresolved_arrays(a)
+        if unres:
+            ORACLE['preludes_with_unresolved_array_classes'] = ORACLE.get('preludes_with_unresolved_array_classes', 0) + 1
+        if os.environ.get('C16_NO_UNRES'):      # development switch: show what the model says without the input
+            unres = set()
+        return g_prelude(desc, pm, unres=unres)
     return f
 
 
-def run_program(check, desc, tag, tier, with_codecs=True, fixed=None):
+def run_program(check, desc, tag, tier, with_codecs=True, fixed=None, forced=()):
     b = build(desc)
     app = get_app(desc, b, 'XmlDocument', True)
     pf = prelude_factory(desc)
@@ -1578,8 +1624,8 @@ def run_program(check, desc, tag, tier, with_codecs=True, fixed=None):
     corr_flat(check, desc, b, app, prelude, tag)
     corr_registry(check, desc, b, app, prelude, tag)
     if with_codecs:
-        corr_xml(check, desc, b, pf, tag, tier)
-        corr_hier(check, desc, b, pf, tag, tier)
+        corr_xml(check, desc, b, pf, tag, tier, forced)
+        corr_hier(check, desc, b, pf, tag, tier, forced)
         ran = oracle_program(check, desc, b, tier, fixed)
         corr_hypotheses(check, desc, pf(app), tag, ran)
     return b
@@ -1619,6 +1665,12 @@ def run(check):
         'Attributes._subclasses lists direct subclasses in creation order',
         'prefix allocation (Interface.get_namespace_prefix) is not modelled: the prefix table the interface ended up with '
         'is an input of every case; the theorems hold for any table whose prefixes are non-empty and colon-free',
+        'the namespace of an Array(T) class is global state assigned when resolve_namespace reaches the class that '
+        'declares the member (message classes, what add_class visits, their direct subclasses and what those refer to); '
+        'members of classes no application reached (e.g. below a subclass placed in another namespace) keep None and their '
+        'items are written without a namespace. That reachability is not modelled: the list of such members is read from '
+        'the implementation\'s classes and is an input of every case (p_unres); the theorems hold for any list, and '
+        'instances of such classes are outside the property\'s quantifier',
         'the leaf codecs of Integer / Unicode / Boolean: C08 via C01/Leaf.v for XML; for dict documents the identity on '
         '64-bit integers, text and booleans (C16/Leaf.v), other leaves are C02\'s subject',
     ]
@@ -1640,6 +1692,8 @@ def run(check):
     check.prove('Props.C16', THEOREMS)
     for name, desc, vals in corpus():
         run_program(check, desc, 'corpus %s' % name, tier, fixed=vals)
+    desc, vals, forced = cross_namespace_program()
+    run_program(check, desc, 'corpus cross-namespace-chain', tier, fixed=vals, forced=forced)
     n_prog = 6 if tier == 'quick' else 40
     for pi in range(n_prog):
         desc = gen_tree(rng)
